@@ -16,6 +16,8 @@ def run(chk):
                        "honest non-revocation proofs matching known finding D10 are discarded (counted), see DESIGN.md section 8"]
     cfg = "Keyshare.mc.thorough.cfg" if thorough else "Keyshare.mc.quick.cfg"
     g = vplib.tlc_mc("KeyshareGen", cfg, workers=1, timeout=1800)
+    if thorough:
+        vplib.coverage_check(chk, "KeyshareGen", "Keyshare.mc.quick.cfg", workers=1, timeout=900)
     cases = sorted(set(g.tagged_raw_json("C")))
     chk.add_tlc(g, "KeyshareGen", cfg, "Bound, Complete, AlteredNeverReleased; %d cases emitted" % len(cases))
     if len(cases) < 5000:
